@@ -78,6 +78,45 @@ macro_rules! fp_suite {
                     out.call("f.mul", json!({"F": $fstr, "form": "rr", "a": b(&sa), "b": b(&sa)}), || outs! {"out" => b(&(&fa * &fa).to_slice())});
                     out.call("f.is_zero", json!({"F": $fstr, "a": b(&sa)}), || outs! {"out" => Value::Bool(fa.is_zero())});
                 }
+                // every designated Montgomery-boundary pair (sum exactly p / exactly 2^256 / equal / successor): add and sub, mul for a quarter
+                for (i, (xa, xb)) in pool.pairs.iter().enumerate() {
+                    let (fa, fb) = (mk(xa), mk(xb));
+                    let (sa, sb) = (fa.to_slice(), fb.to_slice());
+                    for opn in ["add", "sub", "mul"] {
+                        if opn == "mul" && i % 4 != 0 { continue; }
+                        let form = FORMS[(i + opn.len()) % 6];
+                        out.call(&format!("f.{}", opn), json!({"F": $fstr, "form": form, "a": b(&sa), "b": b(&sb)}), || {
+                            let r = $binop(opn, form, fa, fb);
+                            outs! {"out" => b(&r.to_slice()), "outz" => Value::Bool(r.is_zero()), "outeq" => Value::Bool(Some(r) == <$t>::from_slice(&r.to_slice()))}
+                        });
+                    }
+                }
+                // V-boundary families (the Montgomery reduction ends on p-1, p, p+1, 2^256-1, 2^256, 2^256 + small ... before its
+                // conditional subtraction): products in every form, and squares through pow (the dedicated squaring routine)
+                for (i, (xa, xb)) in pool.vpairs.iter().enumerate() {
+                    let (fa, fb) = (mk(xa), mk(xb));
+                    let (sa, sb) = (fa.to_slice(), fb.to_slice());
+                    for form in [FORMS[i % 6], FORMS[(i + 3) % 6]] {
+                        out.call("f.mul", json!({"F": $fstr, "form": form, "a": b(&sa), "b": b(&sb)}), || {
+                            let r = $binop("mul", form, fa, fb);
+                            outs! {"out" => b(&r.to_slice()), "outz" => Value::Bool(r.is_zero()), "outeq" => Value::Bool(Some(r) == <$t>::from_slice(&r.to_slice()))}
+                        });
+                    }
+                }
+                for xa in pool.vsq.iter() {
+                    let fa = mk(xa);
+                    let sa = fa.to_slice();
+                    for e in [2u8, 3, 4] {
+                        let mut ev = [0u8; 32];
+                        ev[31] = e;
+                        let fe = mk(&ev);
+                        out.call("f.pow", json!({"F": $fstr, "a": b(&sa), "e": b(&ev)}), || outs! {"out" => b(&fa.pow(fe).to_slice())});
+                    }
+                    out.call("f.mul", json!({"F": $fstr, "form": "vv", "a": b(&sa), "b": b(&sa)}), || {
+                        let r = fa * fa;
+                        outs! {"out" => b(&r.to_slice()), "outz" => Value::Bool(r.is_zero()), "outeq" => Value::Bool(Some(r) == <$t>::from_slice(&r.to_slice()))}
+                    });
+                }
             }
             while !out.full() {
                 k += 1;
